@@ -1,0 +1,10 @@
+//go:build !verif
+// +build !verif
+
+package config
+
+import "time"
+
+// Without the verif tag the net timeouts are the built-in constants.
+func verifNetTimeout() time.Duration   { return 0 }
+func verifNetHeartbeat() time.Duration { return 0 }
